@@ -2039,7 +2039,8 @@ def gen_declared(rng):
         else:
             nm = rng.choice(sorted(cat))
             kw, shape, unit = cat[nm]
-            vkw = kw if rng.random() < 0.92 else rng.choice(["float", "str", "bool"])
+            # values of the node's own type and shape only: what the casts make of anything else is C14's business
+            vkw = kw
             munit = rng.choice([None, "mm", "m"]) if (kw == "float" and unit) else (None if rng.random() < 0.95 else "m")
             lines.append(L("mod", indent=0, name=nm, path=[nm], val={"lit": gen_value(rng, vkw, shape)}, unit=munit))
     if rng.random() < 0.8:
